@@ -374,14 +374,15 @@ void AbstractDiscreteDistribution::discretizeEqualProportions()
       bounds_[i - 1] = intMinMax_->getLowerBound() + static_cast<double>(i) * ec;
     }
 
-    values[0] = (intMinMax_->getLowerBound() + bounds_[0]) / 2;
-
-    for (i = 1; i < numberOfCategories_ - 1; i++)
+    // midpoints; the last class ends at the upper bound of the domain (and with a
+    // single class there is no interior bound at all)
+    double previousBound = intMinMax_->getLowerBound();
+    for (i = 0; i < numberOfCategories_; i++)
     {
-      values[i] = (bounds_[i - 1] + bounds_[i]) / 2;
+      double nextBound = (i + 1 < numberOfCategories_) ? bounds_[i] : intMinMax_->getUpperBound();
+      values[i] = (previousBound + nextBound) / 2;
+      previousBound = nextBound;
     }
-
-    values[numberOfCategories_ - 1] = (intMinMax_->getUpperBound() + bounds_[numberOfCategories_ - 1]) / 2;
   }
 
   // adjustments near the boundaries of the domain, according to the precision chosen
